@@ -552,6 +552,8 @@ func (fv *FuncVC) frameObligation() {
 	if con.HasAssigns {
 		for _, it := range fv.expandAssigns(con.Assigns, pkgOf(fv.fn)) {
 			switch {
+			case it.Computed:
+				allowAll = true
 			case it.All:
 				allowAll = true
 			case it.TypeT != "":
